@@ -1,5 +1,6 @@
 import Femio.Props.C20
 import Femio.Props.C20Pipeline
+import Femio.Props.C20Admit
 open Femio.C20
 #print axioms C20_check_polyhedron_spec
 #print axioms C20_checker_sound
@@ -32,3 +33,9 @@ open Femio.C20
 #print axioms C20_pipeline_flux
 #print axioms C20_pipeline_output_flux
 #print axioms C20_step_flux
+#print axioms C20_admit_iff_cos
+#print axioms C20_unsigned_test_counterexample
+#print axioms C20_fan_normal_rotate
+#print axioms C20_fan_normal_rotate_k
+#print axioms C20_upstream_normal_counterexample
+#print axioms C20_upstream_admits_knife_edge
